@@ -138,6 +138,26 @@ def build():
     ], "w")
     cases.append(Case("cond_dist", p, [f32(0.3)], features={"fn", "cond", "cond_dist"}))
 
+    # 15. Cond whose branches call a sub-function (nested addresses inside the branches)
+    pa = Fn("pa", ["m"], [Sample("a", "a", normal, ["m", "1.0"]), Sample("b", "b", normal, ["a", "1.0"])], "a + b")
+    pb = Fn("pb", ["m"], [Sample("a", "a", normal, ["m + 2.0", "1.0"]), Sample("b", "b", normal, ["a * 0.5", "2.0"])], "a - b")
+    cA = Fn("cA", ["m"], [Sample("r", "p", pa, ["m"])], "r")
+    cB = Fn("cB", ["m"], [Sample("r", "p", pb, ["m"])], "r * 0.5")
+    p = Fn("cond_nested", ["mu"], [
+        Sample("z", "z", normal, ["mu", "1.0"]),
+        Sample("w", "c", CondC(cA, cB), ["z > 0.0", "z"]),
+    ], "w + z")
+    cases.append(Case("cond_nested", p, [f32(0.3)], features={"fn", "cond", "call"}))
+
+    # 16. Cond whose branches have DIFFERENT supports (the untaken branch assigns density 0 to the visible value)
+    u0 = Fn("u0", ["m"], [Sample("v", "v", uniform, ["m", "m + 1.0"])], "v")
+    u1 = Fn("u1", ["m"], [Sample("v", "v", uniform, ["m + 2.0", "m + 4.0"])], "v * 0.5")
+    p = Fn("cond_supports", ["mu"], [
+        Sample("b", "b", flip, ["0.5"]),
+        Sample("w", "c", CondC(u0, u1), ["b", "mu"]),
+    ], "w")
+    cases.append(Case("cond_supports", p, [f32(0.0)], features={"fn", "cond", "supports"}))
+
     return cases
 
 
